@@ -195,6 +195,21 @@ func tree(r *rand.Rand, dir string) (root string, files []string) {
 			files = append(files, p)
 		}
 	}
+	// a directory of stand-alone generator programs: every file is excluded from the build
+	// (//go:build ignore) and is a package main of its own, so the files of this directory
+	// do not resolve to one package
+	td := filepath.Join(root, "tools")
+	os.MkdirAll(td, 0o755)
+	for k := 0; k < 3; k++ {
+		f := &gen.File{Pkg: "main", Prelude: "//go:build ignore\n\n" + gen.Prelude("main")}
+		for j := 0; j < 2; j++ {
+			f.Funcs = append(f.Funcs, gen.Function(r, fmt.Sprintf("Tool%d_%d", k, j), gen.SigII, 4+r.Intn(4)))
+		}
+		f.Funcs = append(f.Funcs, gen.Func{Name: "main", Text: fmt.Sprintf("func main() {\n\t_ = Tool%d_0(1, 2)\n}\n", k)})
+		p := filepath.Join(td, fmt.Sprintf("gen%d.go", k))
+		os.WriteFile(p, []byte(f.Source()), 0o644)
+		files = append(files, p)
+	}
 	return root, files
 }
 
